@@ -42,6 +42,10 @@ H = {
     "event-counter-reset-pre-built-events-after-others": ("C03/prebuilt_events:pre+post/delivery-order:*/after-others",
                                                            sc("prebuilt_events", PRE, 1, after_others=True,
                                                               others=[{"model": "prebuilt_events", "params": {**PRE, "pre": 0}, "seed": 2}])),
+    "sketch-frozenset-item-repr-cms": ("C03/sketch_cms:*-frozenset/stat:cms.*/hashseed",
+                                       sc("sketch_cms", {**CMS, "item_kind": "frozenset"}, 1, hs=[1])),
+    "sketch-frozenset-item-repr-bloom-hll": ("C03/sketch_others:all-frozenset/stat:*/hashseed",
+                                             sc("sketch_others", {**CMS, "rate": 300.0, "item_kind": "frozenset"}, 5, hs=[1, 4242])),
     "ttleviction-default-wall-clock": ("C03/ttl_cache_server:default/*/wall-clock",
                                         sc("ttl_cache_server", {"clock": "default", "rate": 150.0, "customers": 20, "cap": 8, "horizon": 1.0}, 1,
                                            wall=["fast"])),
